@@ -87,6 +87,7 @@ def mul(a, b):
 def ite(c, a, b):
     if c[0] == 'c': return a if c[1] else b
     if a == b: return a
+    if c[0] == 'bnot': return ('ite', c[1], b, a)
     return ('ite', c, a, b)
 
 # ---------------------------------------------------------------- ranges
